@@ -585,6 +585,8 @@ def mutants():
           "            data = self._bufferedCharacter + data", "C05.2"),
         T("unget-no-size", REL, "                self.chunk = char + self.chunk\n                self.chunkSize += 1", "                self.chunk = char + self.chunk", "C05.4"),
         T("char-off-by-one", REL, "        if self.chunkOffset >= self.chunkSize:\n            if not self.readChunk():", "        if self.chunkOffset > self.chunkSize:\n            if not self.readChunk():", "C05.5"),
+        T("decoding-reader-single-read", REL, "        while True:\n            data = self.stream.read(size)\n            text = self.decoder.decode(data, not data)\n            if text or not data:\n                return text\n",
+          "        data = self.stream.read(size)\n        return self.decoder.decode(data, not data)\n", "C05.17"),
         T("read-ahead-not-retested", REL, "        if len(data) > 1:\n            lastv = ord(data[-1])\n            if lastv == 0x0D or 0xD800 <= lastv <= 0xDBFF:\n                self._bufferedCharacter = data[-1]\n                data = data[:-1]\n",
           "        if len(data) > 1:\n            lastv = ord(data[-1])\n            if lastv == 0x0D or 0xD800 <= lastv <= 0xDBFF:\n                self._bufferedCharacter = data[-1]\n                data = data[:-1]\n        elif data == \"\\r\":\n            data += self.dataStream.read(chunkSize)\n", "C05.3"),
         T("lone-cr-not-extended", REL, "        while len(data) == 1 and (data == \"\\r\" or 0xD800 <= ord(data) <= 0xDBFF):\n            more = self.dataStream.read(chunkSize)\n            if not more:\n                break\n            data += more\n", "", "C05.3"),
